@@ -95,6 +95,10 @@ def run(F, R):
     # under: the net driver's receive / recycle custody rules (C16.S4)
     from .C16 import s4_custody
     s4_custody(F, R, M, roles, rule='E11', only=('receive', 'recycle_rx_buffer'))
+    # E12: "a poll that finds nothing ready or a non-matching token changes nothing" at driver level: bookkeeping keyed by the
+    # token is released only after the fallible pop succeeded (C20.Z7)
+    from .C20 import z7_release_after_pop
+    z7_release_after_pop(F, RuleProxy(R, {'Z7': 'E12'}), M, roles)
     e9_can_pop(F, R, M, by['can_pop'][0], lfield)
 
 
